@@ -152,8 +152,13 @@ def parse_cbmc(text):
             if mm: r["symex_s"] += float(mm.group(1))
             mm = re.search(r"(\d+) variables, (\d+) clauses", t)
             if mm: r["vars"] = max(r["vars"], int(mm.group(1))); r["clauses"] = max(r["clauses"], int(mm.group(2)))
-        if "result" in m:
-            for p in m["result"]:
+        plist = m.get("result", [])
+        if "trace" in m and m.get("status") == "failed":   # --stop-on-fail shape
+            q = dict(m); q["status"] = "FAILURE"
+            q.setdefault("sourceLocation", (m["trace"][-1].get("sourceLocation", {}) if m["trace"] else {}))
+            plist = [q]
+        if plist:
+            for p in plist:
                 ent = dict(property=p.get("property"), status=p.get("status"), description=p.get("description", ""),
                            loc=p.get("sourceLocation", {}))
                 if "trace" in p:
@@ -233,17 +238,38 @@ def do_obligation(pid, ob, tier, keep):
     got = GATE.acquire(mem)
     try:
         t0 = time.time()
-        gb, err = compile_ob(ob, wd)
+        two_pass = ob.get("solver") == "kissat"
+        gb, err = compile_ob(ob, wd, extra_defs=(["VP_NO_WITNESS"] if two_pass else []))
         if not gb:
             rec["verdict"] = "ERROR"; rec["error"] = err; return rec
         cmd = cbmc_cmd(ob, gb)
+        if two_pass: cmd += ["--stop-on-fail"]   # one solver invocation (cbmc 6.11 hangs on a 2nd external-solver call)
         rec["cmd"] = " ".join(cmd)
         outp = os.path.join(wd, "cbmc.json")
         rc, so, se, wall, rss = run(cmd, ob.get("timeout", 600), mem, stdout_path=outp)
         rec["wall_s"] = round(time.time() - t0, 2); rec["rss_mb"] = rss // 1024
         if rc == -999:
+            subprocess.run(["pkill", "-f", "kissat .*" + re.escape(wd)], capture_output=True)
             rec["verdict"] = "TIMEOUT"; return rec
         pr = parse_cbmc(open(outp, errors="replace").read())
+        if two_pass and pr["status"] is not None:
+            # pass B: reachability witnesses only (property assertions compiled out, standard checks off), built-in solver
+            wdb = os.path.join(wd, "wit"); os.makedirs(wdb, exist_ok=True)
+            gbb, err = compile_ob(ob, wdb, extra_defs=["VP_WITNESS_ONLY"])
+            if not gbb:
+                rec["verdict"] = "ERROR"; rec["error"] = err; return rec
+            obb = dict(ob); obb["solver"] = None; obb["cbmc"] = list(ob.get("cbmc", [])) + ["--no-standard-checks"]
+            outb = os.path.join(wdb, "cbmc.json")
+            rc2, so2, se2, wall2, rss2 = run(cbmc_cmd(obb, gbb), ob.get("timeout", 600), mem, stdout_path=outb)
+            if rc2 == -999:
+                rec["verdict"] = "TIMEOUT"; return rec
+            prb = parse_cbmc(open(outb, errors="replace").read())
+            if prb["status"] is None:
+                rec["verdict"] = "ERROR"; rec["error"] = "witness pass failed: " + se2[-800:]; return rec
+            if pr["status"] == "success":
+                for x in pr["results"]: x["status"] = "SUCCESS"
+            pr["results"] = [x for x in pr["results"] if x["status"] in ("SUCCESS", "FAILURE")] + [x for x in prb["results"] if x["description"].startswith("WITNESS")]
+            rec["wall_s"] = round(time.time() - t0, 2)
         rec.update(steps=pr["steps"], vccs=pr["vccs"], vccs_remaining=pr["vccs_remaining"], solver_s=round(pr["solver_s"], 3),
                    symex_s=round(pr["symex_s"], 3), sat_vars=pr["vars"], sat_clauses=pr["clauses"], no_body=sorted(set(pr.get("nobody", []))))
         if pr["status"] is None:
@@ -339,6 +365,8 @@ def main():
     if only: obs = [o for o in obs if o["name"] in only]
     kf_path = os.path.join(VERIF, "known_findings.json")
     kfs = json.load(open(kf_path)) if os.path.exists(kf_path) else {"findings": []}
+    if os.environ.get("VERIF_KF_EXTRA"):  # development only: proposed entries not yet merged by the coordinator
+        kfs = {"findings": kfs.get("findings", []) + json.load(open(os.environ["VERIF_KF_EXTRA"])).get("findings", [])}
     t0 = time.time()
     with ThreadPoolExecutor(max_workers=JOBS) as ex:
         recs = list(ex.map(lambda o: do_obligation(pid, o, tier, keep), obs))
